@@ -29,6 +29,7 @@ META = {
     "resolve() results and what is derived from them by iteration/subscript) is the rule's own table, printed in evidence.",
 }
 META["technique"] += '; no-call rule on data-plane values'
+META["technique"] += '; base_globals forwarding of every context built in RenderContext.copy'
 META["level_text"] += ' Also decided (R4): no data-plane value is ever called.'
 
 PROTOCOL = {
@@ -383,6 +384,21 @@ def run(prog: Program, res: Result) -> None:
                         else:
                             res.fail("C05.R6b", file=f.file, line=c.lineno, qualname=f.qualname, construct=f"{f.qualname}: store to base_globals", message=f"{f.qualname} rebinds base_globals outside RenderContext.__init__ (or to something other than the constructor argument / the global data)", what=what)
     res.floor("C05.R6b", "writers of base_globals", n_bg, 2)
+    # R6c: every child context is handed the root's base_globals - the translations catalog is looked up there, not among template bindings
+    res.rule("C05.R6c", "the translation catalog stays application data in every context: each context RenderContext.copy() constructs is given `base_globals=self.base_globals`; without it the constructor falls back to the child's global_data, which for a block-scoped copy holds everything the template has bound - a template could then bind `translations` and have its gettext methods called")
+    copy_m = ctx_cls.methods.get("copy")
+    if copy_m is None:
+        raise AnalysisError("RenderContext.copy vanished")
+    ctors6c = [c for c in ast.walk(copy_m.node) if isinstance(c, ast.Call) and norm(c.func) in ("self.__class__", "RenderContext", "type(self)")]
+    for c in ctors6c:
+        kw = next((k.value for k in c.keywords if k.arg == "base_globals"), None)
+        site = f"{copy_m.file}:{c.lineno} RenderContext.copy"
+        what = "RenderContext.copy: the child context receives the root's base_globals"
+        if kw is not None and norm(kw) == "self.base_globals":
+            res.ok("C05.R6c", site, what, "base_globals=self.base_globals")
+        else:
+            res.fail("C05.R6c", file=copy_m.file, line=c.lineno, qualname="RenderContext.copy", construct=f"RenderContext.copy: child built with base_globals={norm(kw) if kw is not None else '<missing>'}", message=f"RenderContext.copy constructs a child context with base_globals={norm(kw) if kw is not None else 'left out'}: the child's base_globals becomes its own global_data (template bindings included), and the translate tag / filters resolve `translations` there - an object the template bound is then used as the catalog and its gettext / ngettext methods are called", what=what)
+    res.floor("C05.R6c", "child context constructions in copy()", len(ctors6c), 2)
 
     # ------------------------------------------------------------------ R4 data values are never called
     res.rule("C05.R4", "a value that can hold a context object is never called: no `v(...)`, `v[k](...)` on data-plane variables (calling is not part of the item/length/iteration/conversion protocol)")
